@@ -47,6 +47,8 @@ def run_stream(profile_name, n, seed, keep_samples=2):
     oracle_errors = []
     for i in range(n):
         impl = core.Impl(user_logger=r.random() < P.user_logger)
+        if impl.user_logger and r.random() < 0.3:
+            impl.user_logger = "quiet"       # a user logger that lets nothing through
         loggers.append(impl.user_logger)
         if grid is not None:
             ops = grid[i]
